@@ -50,7 +50,8 @@ Inductive op :=
 | OWrite (c : addr) (n : Z)
 | OQuery (c : addr)
 | OReqSetHeader (c : addr) (k v : bytes)
-| OObserve (c : addr).
+| OObserve (c : addr)
+| OParam (c : addr) (names : list bytes).   (* c.Param(name) for each name: reads only *)
 
 (* everything a raw dump of the object shows (verif hook), pointers as model addresses *)
 Record raw := mkRaw {
@@ -69,7 +70,8 @@ Inductive out :=
 | OutObs (v : res view) (r : raw)
 | OutBranch (b : branch)
 | OutLookup (matched : bool)
-| OutPanic.
+| OutPanic
+| OutParam (vals : list (bytes * res bytes)).   (* (name, what Param(name) returned) *)
 
 Definition step (fx : bool) (o : op) (H : heap) : res heap * list out :=
   match o with
@@ -98,6 +100,7 @@ Definition step (fx : bool) (o : op) (H : heap) : res heap * list out :=
   | OQuery c => (Ok (fst (get_queries H c)), [])
   | OReqSetHeader c k v => match req_set_header H c k v with Ok H => (Ok H, []) | Panic => (Panic, [OutPanic]) end
   | OObserve c => (Ok H, [OutObs (observe H c) (raw_of H c)])
+  | OParam c names => (Ok H, [OutParam (map (fun k => (k, ctx_param H (ctxs H c) k)) names)])
   end.
 
 (* a panic ends the history (the harness stops there too) *)
@@ -129,6 +132,6 @@ Definition op_addrs (o : op) : list addr :=
   | OPlant c s => c :: stale_addrs s
   | OServe c w r _ _ | OLookup c w r _ => [c; w; r]
   | OResetNil c | OLazy c _ | OClone c | OSetHeader c _ _ | OWriteHeader c _ | OWrite c _
-  | OQuery c | OReqSetHeader c _ _ | OObserve c => [c]
+  | OQuery c | OReqSetHeader c _ _ | OObserve c | OParam c _ => [c]
   | OCloneWith c cp w r => [c; cp; w; r]
   end.
